@@ -994,11 +994,202 @@ class TokFn(Fn):
         return out
 
 
+# ---------------------------------------------------------------- class StreamBuffer, TokenizeError.clone
+
+class SbFn(Fn):
+    """methods of StreamBuffer over the representation of coq/Opt/OptSrcLib.v (sb_at, sb_slice, sb_index_incr, sb_set_*)"""
+
+    def __init__(self, mod, cls):
+        self.mod, self.pyname, self.cls = mod, "StreamBuffer", cls
+        self.env, self.tmp, self.loops, self.nloop = {}, 0, [], 0
+        self.methods = {n.name: n for n in cls.body if isinstance(n, ast.FunctionDef)}
+
+    FIELDS = {"_index": "(s_idx self)", "_line": "(s_line self)", "_column": "(s_col self)"}
+
+    def buf_index(self, e):
+        """self._index [+ k] -> k"""
+        if ast.unparse(e) == "self._index":
+            return "0%nat"
+        if isinstance(e, ast.BinOp) and isinstance(e.op, ast.Add) and ast.unparse(e.left) == "self._index" \
+                and isinstance(e.right, ast.Name) and self.env.get(e.right.id) == "nat":
+            return e.right.id
+        bad(e, "buffer index")
+
+    def expr(self, e, want=None):
+        if isinstance(e, ast.Subscript) and ast.unparse(e.value) == "self._buffer" and not isinstance(e.slice, ast.Slice):
+            k = self.buf_index(e.slice)
+            t = self.fresh("c")
+            return [f"do {t} <- sb_at self {k};"], t, "char"
+        if isinstance(e, ast.Attribute) and ast.unparse(e.value) == "self" and e.attr in self.FIELDS:
+            return [], self.FIELDS[e.attr], "N"
+        return super().expr(e, want)
+
+    def field_updates(self, body):
+        """a block that only updates _line / _column -> Gallina term over `self`"""
+        lines = []
+        for s in body:
+            if isinstance(s, ast.AugAssign) and isinstance(s.op, ast.Add) and isinstance(s.value, ast.Constant) \
+                    and type(s.value.value) is int and ast.unparse(s.target) in ("self._line", "self._column"):
+                f = ast.unparse(s.target)[5:]
+                setter = "sb_set_line" if f == "_line" else "sb_set_col"
+                lines.append(f"let self := {setter} self ({self.FIELDS[f]} + {s.value.value}) in")
+            elif isinstance(s, ast.Assign) and len(s.targets) == 1 and ast.unparse(s.targets[0]) in ("self._line", "self._column") \
+                    and isinstance(s.value, ast.Constant) and type(s.value.value) is int:
+                f = ast.unparse(s.targets[0])[5:]
+                setter = "sb_set_line" if f == "_line" else "sb_set_col"
+                lines.append(f"let self := {setter} self {s.value.value} in")
+            else:
+                bad(s, "statement in a bookkeeping branch")
+        return "(" + "\n".join(lines + ["self"]) + ")"
+
+    def forward(self):
+        m = self.methods["forward"]
+        if [a.arg for a in m.args.args] != ["self", "length"]:
+            bad(m, "signature of forward")
+        body = [s for s in m.body if not (isinstance(s, ast.Expr) and isinstance(s.value, ast.Constant))]
+        if len(body) != 1 or not (isinstance(body[0], ast.While) and ast.unparse(body[0].test) == "length" and not body[0].orelse):
+            bad(m, "forward is not `while length:`")
+        loop = list(body[0].body)
+        if ast.unparse(loop[-1]) != "length -= 1":
+            bad(loop[-1], "the loop does not end with `length -= 1`")
+        self.env = {"length": "nat"}
+        out = []
+        for s in loop[:-1]:
+            if isinstance(s, ast.Assign) and len(s.targets) == 1 and isinstance(s.targets[0], ast.Name) and s.targets[0].id == "ch":
+                pre, tm, ty = self.expr(s.value)
+                if ty != "char":
+                    bad(s, "ch is not a character")
+                self.env["ch"] = "char"
+                out += pre + [f"let ch := {tm} in"]
+            elif ast.unparse(s) == "self._index += 1":
+                out.append("let self := sb_index_incr self in")
+            elif isinstance(s, ast.If):
+                chain, node = [], s
+                while True:
+                    pre, c = self.test(node.test)
+                    if chain and pre:
+                        bad(node, "effectful elif test")
+                    out += pre
+                    chain.append((c, self.field_updates(node.body)))
+                    if len(node.orelse) == 1 and isinstance(node.orelse[0], ast.If):
+                        node = node.orelse[0]
+                        continue
+                    chain.append((None, self.field_updates(node.orelse)))
+                    break
+                term = " ".join(f"if {c} then {b} else" if c is not None else b for c, b in chain)
+                out.append(f"let self := ({term}) in")
+            else:
+                bad(s, "statement in forward")
+        return ("Fixpoint forward_src (self : OptModel.stream) (length : nat) : res OptModel.stream :=\n"
+                "match length with O => Ok self | S length =>\n" + "\n".join(out) + "\nforward_src self length\nend.\n")
+
+    def simple_return(self, name, params):
+        m = self.methods[name]
+        if [a.arg for a in m.args.args] != ["self"] + [p for p, _ in params]:
+            bad(m, f"signature of {name}")
+        body = [s for s in m.body if not (isinstance(s, ast.Expr) and isinstance(s.value, ast.Constant))]
+        if len(body) != 1 or not isinstance(body[0], ast.Return):
+            bad(m, f"{name} is not a single return")
+        self.env = dict(params)
+        return body[0].value
+
+    def translate(self):
+        out = []
+        # __init__
+        init = self.methods["__init__"]
+        got = [ast.unparse(s) for s in init.body]
+        want = {"self._buffer": None, "self._index": "0", "self._line": None, "self._column": None}
+        vals = {}
+        for s in init.body:
+            if not (isinstance(s, ast.Assign) and len(s.targets) == 1 and ast.unparse(s.targets[0]) in want):
+                bad(s, "statement in StreamBuffer.__init__")
+            vals[ast.unparse(s.targets[0])] = s.value
+        if set(vals) != set(want) or ast.unparse(vals["self._index"]) != "0" or ast.unparse(vals["self._buffer"]) != "stream + _CHARS_END":
+            bad(init, "StreamBuffer.__init__")
+        for f in ("self._line", "self._column"):
+            if not (isinstance(vals[f], ast.Constant) and type(vals[f].value) is int and vals[f].value >= 0):
+                bad(init, "initial line / column")
+        out.append(f"Definition new_stream_src (stream : str) : OptModel.stream :=\n"
+                   f"sb_init (stream ++ {nlist(self.mod.consts['_CHARS_END'])}) {vals['self._line'].value} {vals['self._column'].value}.\n")
+        # properties
+        for prop, fld in (("index", "_index"), ("line", "_line"), ("column", "_column")):
+            v = self.simple_return(prop, [])
+            if ast.unparse(v) != "self." + fld:
+                bad(v, f"property {prop}")
+        # peek
+        v = self.simple_return("peek", [("index", "nat")])
+        pre, tm, ty = self.expr(v)
+        if ty != "char" or len(pre) != 1:
+            bad(v, "peek")
+        out.append("Definition peek_src (self : OptModel.stream) (index : nat) : res N :=\n" + pre[0] + f"\nOk {tm}.\n")
+        # prefix
+        v = self.simple_return("prefix", [("length", "nat")])
+        if not (isinstance(v, ast.Subscript) and ast.unparse(v.value) == "self._buffer" and isinstance(v.slice, ast.Slice)
+                and v.slice.step is None and ast.unparse(v.slice.lower) == "self._index"):
+            bad(v, "prefix")
+        n = self.buf_index(v.slice.upper)
+        out.append(f"Definition prefix_src (self : OptModel.stream) (length : nat) : str :=\nsb_slice self {n}.\n")
+        # forward
+        out.append(self.forward())
+        # get_position
+        v = self.simple_return("get_position", [])
+        if not (isinstance(v, ast.Call) and ast.unparse(v.func) == "Position" and len(v.args) == 3 and not v.keywords):
+            bad(v, "get_position")
+        comps = []
+        for a in v.args:
+            pre, tm, ty = self.expr(a)
+            if pre or ty != "N":
+                bad(a, "position component")
+            comps.append(tm)
+        out.append("Definition get_position_src (self : OptModel.stream) : N * N * N :=\n(" + ", ".join(comps) + ").\n")
+        return "\n".join(out)
+
+
+def translate_clone(mod, cls):
+    """TokenizeError.clone on the problem mark (index, line, column): dataclasses.replace keeps the fields not named"""
+    m = {n.name: n for n in cls.body if isinstance(n, ast.FunctionDef)}["clone"]
+    if [a.arg for a in m.args.args] != ["self", "line_offset", "column_offset"]:
+        bad(m, "signature of clone")
+    body = [s for s in m.body if not (isinstance(s, ast.Expr) and isinstance(s.value, ast.Constant))]
+    if len(body) != 1 or not isinstance(body[0], ast.Return):
+        bad(m, "clone is not a single return")
+    c = body[0].value
+    if not (isinstance(c, ast.Call) and ast.unparse(c.func) == "TokenizeError" and len(c.args) == 4 and not c.keywords
+            and ast.unparse(c.args[0]) == "self.problem"):
+        bad(c, "clone result")
+    r = c.args[1]
+    if not (isinstance(r, ast.Call) and ast.unparse(r.func) == "replace" and len(r.args) == 1
+            and ast.unparse(r.args[0]) == "self.problem_mark"):
+        bad(r, "problem mark of the clone")
+    fields = {"index": "__i", "line": "__l", "column": "__c"}
+
+    def ex(e):
+        if isinstance(e, ast.BinOp) and isinstance(e.op, (ast.Add, ast.Sub)):
+            return f"({ex(e.left)} {'+' if isinstance(e.op, ast.Add) else '-'} {ex(e.right)})"
+        if isinstance(e, ast.Name) and e.id in ("line_offset", "column_offset"):
+            return e.id
+        if isinstance(e, ast.Attribute) and ast.unparse(e.value) == "self.problem_mark" and e.attr in fields:
+            return fields[e.attr]
+        if isinstance(e, ast.Constant) and type(e.value) is int and e.value >= 0:
+            return str(e.value)
+        bad(e, "expression in clone")
+    new = dict(fields)
+    for k in r.keywords:
+        if k.arg not in fields:
+            bad(r, "replace of an unknown field")
+        new[k.arg] = ex(k.value)
+    return ("Definition clone_src (problem_mark : N * N * N) (line_offset column_offset : N) : N * N * N :=\n"
+            "let '(__i, __l, __c) := problem_mark in\n"
+            f"({new['index']}, {new['line']}, {new['column']}).\n")
+
+
 class Module:
     def __init__(self, source):
         tree = ast.parse(source)
-        self.funcs, self.consts, self.defaults = {}, {}, {}
+        self.funcs, self.consts, self.defaults, self.classes = {}, {}, {}, {}
         for node in tree.body:
+            if isinstance(node, ast.ClassDef):
+                self.classes[node.name] = node
             if isinstance(node, ast.FunctionDef):
                 if node.name in self.funcs:
                     raise Untranslatable(f"{node.name} defined twice")
@@ -1033,6 +1224,14 @@ def translate(source, which=None):
            "Import ListNotations.",
            "Open Scope N_scope.",
            ""]
+    if which is None:
+        for c in ("StreamBuffer", "TokenizeError"):
+            if c not in mod.classes:
+                raise Untranslatable(f"class {c} not found")
+        out.append("(* class StreamBuffer *)")
+        out.append(SbFn(mod, mod.classes["StreamBuffer"]).translate())
+        out.append("(* TokenizeError.clone *)")
+        out.append(translate_clone(mod, mod.classes["TokenizeError"]))
     for name in (which or ORDER):
         if name not in mod.funcs:
             raise Untranslatable(f"function {name} not found")
